@@ -370,10 +370,10 @@ func c11Token(c *Ctx, tok string, note string, withModel bool) {
 }
 
 func runC11(c *Ctx) {
-	c.Res.Rule = "(a) authentically signed tokens of each kind, v2 and v1 layouts, whose payload is a structural mutation of a rich valid payload: EVERY node replaced by each of {null, 0, -1, 1.5, \"x\", \"\", [], [null], [null,null], {}, {\"k\":null}, true, …}, every key dropped / upper-cased — then Decode, DecodeGeneric, the typed decoders, DecorateJWT / FormatUserConfig, and on whatever was decoded: Validate, String, ClaimType, Payload, ExpectedPrefixes, DidSign, IsClaimRevoked, HasExportContainingSubject, HashID, revocation / mapping / signing-key / tag / CIDR mutators, SetScoped, scope queries, Encode; (b) odd issuer strings (well-formed nkeys of the wrong length), (c) arbitrary byte strings through every parser (tokens, credentials, seeds). Any panic is a violation (replay = token or bytes + operation). Decode outcome and validation verdict are also compared with the Lean model. non-trivial = distinct tokens accepted by some decoder."
+	c.Res.Rule = "(a) authentically signed tokens of each kind, v2 and v1 layouts, whose payload is a structural mutation of a rich valid payload: EVERY node replaced by each of {null, 0, -1, 1.5, \"x\", \"\", [], [null], [null,null], {}, {\"k\":null}, true, -1, 2^63, 2^64-1, …}, every key dropped / upper-cased — then Decode, DecodeGeneric, the typed decoders, DecorateJWT / FormatUserConfig, and on whatever was decoded: Validate, String, ClaimType, Payload, ExpectedPrefixes, DidSign, IsClaimRevoked, HasExportContainingSubject, HashID, revocation / mapping / signing-key / tag / CIDR mutators, SetScoped, scope queries, Encode; (b) odd issuer strings (well-formed nkeys of the wrong length), (c) arbitrary byte strings through every parser (tokens, credentials, seeds). Any panic is a violation (replay = token or bytes + operation). Decode outcome and validation verdict are also compared with the Lean model. non-trivial = distinct tokens accepted by some decoder."
 	leaves := mutLeaves
 	if !c.Thorough() {
-		leaves = []string{"null", "0", "\"x\"", "[]", "[null]", "[null,null]", "{}", "{\"k\":null}", "1.5", "true"}
+		leaves = []string{"null", "0", "\"x\"", "[]", "[null]", "[null,null]", "{}", "{\"k\":null}", "1.5", "true", "-1", "9223372036854775808", "18446744073709551615"}
 	}
 	nTok := 0
 	for _, kind := range allKinds {
